@@ -121,6 +121,7 @@ struct Plan {
     int comp = 0;  // 0 none 1 gz 2 bz2
     bool sync = false;
     int handover = 0;  // 0 items, 1 one buffer, 2 several buffers, 3 items with small writer buffer and flushes
+    int tail = 0;      // 0 close(); 1 flush() then close(); 2 close() twice; 3 close(), then more data (must be refused)
     std::vector<Obj> data;
     std::string generator = "gen";
     std::string format_string() const {
@@ -134,6 +135,7 @@ struct RunResult {
     std::string where, what;
     size_t close_return = 0;
     bool refused_after_error = true;
+    bool refused_after_close = true;
     std::string file;  // bytes on disk afterwards
 };
 
@@ -217,10 +219,36 @@ static RunResult run_writer(const Plan& p, bool explicit_close, long rlimit) {
                 note("operator()/flush()", e);
             }
             if (explicit_close || r.threw) {
+                if (p.tail == 1 && !r.threw) {
+                    try {
+                        writer->flush();
+                    } catch (const std::exception& e) {
+                        note("operator()/flush()", e);
+                    }
+                }
                 try {
                     r.close_return = writer->close();
                 } catch (const std::exception& e) {
                     note("close()", e);
+                }
+                if (p.tail == 2) {
+                    try {
+                        (void)writer->close();
+                    } catch (const std::exception& e) {
+                        note("second close()", e);
+                    }
+                }
+                if (p.tail == 3 && !r.threw) {
+                    try {
+                        osmium::memory::Buffer b{256, osmium::memory::Buffer::auto_grow::yes};
+                        Obj n;
+                        n.type = model::NODE;
+                        n.id = 2;
+                        model::add_to_buffer(b, n);
+                        (*writer)(std::move(b));
+                        r.refused_after_close = false;
+                    } catch (const std::exception&) {
+                    }
                 }
             }
             if (r.threw) {
@@ -251,6 +279,7 @@ static void prop(Src& s) {
     p.comp = p.fmt == 0 ? 0 : static_cast<int>(s.weighted({2, 2, 2}));
     p.sync = s.chance(1, 3);
     p.handover = static_cast<int>(s.draw(4));
+    p.tail = static_cast<int>(s.weighted({4, 2, 2, 2}));
     {
         gen::ObjOpts go;
         go.strmode = gen::StrMode::xml10;
@@ -271,7 +300,7 @@ static void prop(Src& s) {
     (void)osmium::thread::Pool::default_instance();  // the process-wide pool keeps its worker threads: they belong to the baseline
     const int threads_before = perturb::thread_count();
     RunResult ref = run_writer(p, true, -1);
-    const std::string base = p.format_string() + (p.sync ? " fsync" : "") + " handover=" + std::to_string(p.handover) + " objects=" + std::to_string(p.data.size());
+    const std::string base = p.format_string() + (p.sync ? " fsync" : "") + " handover=" + std::to_string(p.handover) + " tail=" + std::to_string(p.tail) + " objects=" + std::to_string(p.data.size());
     VP_CHECK(!ref.threw, "writer-fails-without-fault", "the Writer reported an error although nothing failed: " << ref.what << " (" << ref.where << ") | " << base);
     const long S = static_cast<long>(ref.file.size());
     VP_CHECK(ref.close_return == ref.file.size() || ref.close_return == 0, "close-return-value", "close() returned " << ref.close_return << ", the file has " << ref.file.size() << " bytes | " << base);
@@ -359,6 +388,7 @@ static void prop(Src& s) {
             VP_CHECK(r.file == ref.file, "short-or-corrupt-file-reported-as-success", "close() returned without exception but the file on disk (" << r.file.size() << " bytes) differs from the complete file (" << S << " bytes) | " << what);
             VP_CHECK(r.close_return == r.file.size() || r.close_return == 0, "close-return-value", "close() returned " << r.close_return << ", the file has " << r.file.size() << " bytes | " << what);
         }
+        VP_CHECK(r.refused_after_close, "writer-accepts-data-after-close", "the Writer accepted more data after close() had returned | " << what);
         if (r.threw) VP_CHECK(r.refused_after_error, "writer-accepts-data-after-error", "the Writer accepted more data after it had reported an error (" << outcome << ") | " << what);
         // EINTR and short writes: the property only demands "complete file or exception". libosmium's own write loop retries both; zlib
         // reports an interrupted write as an error, which the Writer passes on -- reported, not lost. Observed, not asserted.
